@@ -30,6 +30,7 @@ ASSUMPTIONS = [
 ]
 MIN_NONTRIVIAL_FRACTION = 0.3
 RULE += " Added after the seeded rounds: " + 'Stage names may repeat; a second run of the same cascade must equal the first; gates, processors and handlers raise one of 16 exception types.'
+RULE += ' 1/40 of the cases run the cascade 1001 more times before the comparison run (bound of the result history).'
 EXHAUSTIVE_NOTE = {"quick": "all pipelines of 1..2 stages over 48 stage behaviours x halt on/off (2*(48+2304) = 4704), complete",
                    "thorough": "all pipelines of 1..3 stages over 48 stage behaviours x halt on/off (2*(48+2304+110592) = 225888), complete"}
 
@@ -46,7 +47,7 @@ _json = st.recursive(st.one_of(st.none(), st.booleans(), st.integers(-5, 5), st.
 
 
 def strategy(tier):
-    plain = st.fixed_dictionaries({"halt": st.booleans(), "max_amp": st.sampled_from([10, 100]), "input": st.integers(0, 3), "exc": st.integers(0, 15), "names": st.sampled_from(["unique", "unique", "same", "pairs"]),
+    plain = st.fixed_dictionaries({"halt": st.booleans(), "max_amp": st.sampled_from([10, 100]), "input": st.integers(0, 3), "exc": st.integers(0, 15), "names": st.sampled_from(["unique", "unique", "same", "pairs"]), "reruns": st.sampled_from([0] * 39 + [1001]),
                                    "stages": st.lists(_stage, min_size=1, max_size=5)})
     mapk = st.fixed_dictionaries({"mapk": st.just(True), "halt": st.booleans(), "max_amp": st.sampled_from([10, 100, 1000, 5000]),
                                   "amps": st.lists(st.sampled_from([0.5, 1, 2, 10, 200]), min_size=3, max_size=3), "input": _json})
@@ -244,6 +245,12 @@ def judge(case):
     # history independence: a second run on the same object behaves like a run on a fresh one
     if not case.get("_second"):
         first_log = list(log)
+        for _k in range(case.get("reruns", 0)):          # > 1000 runs cross the bound of the result history
+            try:
+                c.run(list(inp))
+            except Exception as e:
+                out.fail("raise:%s:second-run" % type(e).__name__, "run() number %d raised %s" % (_k + 2, e), d)
+                return out
         del log[:]
         try:
             res2 = c.run(list(inp))
